@@ -270,8 +270,9 @@ BitAt(d, w, p) == LET i == Len(d) - (p \div w) IN IF i < 1 THEN 0 ELSE (d[i] \di
 LimbAt(d, w, j) == BitAt(d, w, 4 * j) + 2 * BitAt(d, w, 4 * j + 1) + 4 * BitAt(d, w, 4 * j + 2) + 8 * BitAt(d, w, 4 * j + 3)
 RegroupMag(d, w) == LET nl == (Len(d) * w + 3) \div 4 IN Strip0([j \in 1..nl |-> LimbAt(d, w, nl - j)])
 BitsPerDigit(base) == CASE base = 2 -> 1 [] base = 8 -> 3 [] OTHER -> 4
-Mag(t) == IF t.base = 10 THEN HornerMag(Digs(t.ds), 10) ELSE RegroupMag(Digs(t.ds), BitsPerDigit(t.base))
-IntVal(t) == LET m == Mag(t) IN [sg |-> IF m = <<>> THEN 0 ELSE IF t.sg = "-" THEN -1 ELSE 1, hx |-> m]
+(* (the digits are bound by a quantifier so that TLC computes Digs once, not at every use) *)
+Mag(t) == CHOOSE r \in {IF t.base = 10 THEN HornerMag(d, 10) ELSE RegroupMag(d, BitsPerDigit(t.base)) : d \in {Digs(t.ds)}} : TRUE
+IntVal(t) == CHOOSE r \in {[sg |-> IF m = <<>> THEN 0 ELSE IF t.sg = "-" THEN -1 ELSE 1, hx |-> m] : m \in {Mag(t)}} : TRUE
 
 (* exact values [k, sg, hx, es]: int = sign and limbs; float = an integral float given like the int it equals *)
 (* (sg = -1 with hx = <<>> is -0.0; sg = 2: not integral / not finite / another type); containers as above.   *)
@@ -288,13 +289,14 @@ XSame(v, w) ==
 
 (* literal expressions built from the tokens: [k, tok, es], k in Int / Complex / List / Tuple / Set / Dict /   *)
 (* DictElem; complex(<int literal>, <int literal>) is what _parse_complex accepts besides float arguments     *)
+NoX == XN("-", 2, <<>>, <<>>)
 LN(k, tok, es) == [k |-> k, tok |-> tok, es |-> es]
 LInt(t) == LN("Int", t, <<>>)
 LCont(k, es) == LN(k, NoTok, es)
 AsFloat(x) == IF x.k = "int" THEN XN("float", x.sg, x.hx, <<>>) ELSE x        \* float(int), exact below 2^53
 RECURSIVE LitValue(_)
 LitValue(t) ==
-  CASE t.k = "Int" -> LET v == IntVal(t.tok) IN XN("int", v.sg, v.hx, <<>>)
+  CASE t.k = "Int" -> CHOOSE r \in {XN("int", v.sg, v.hx, <<>>) : v \in {IntVal(t.tok)}} : TRUE
     [] t.k = "Complex" -> XC("complex", <<AsFloat(LitValue(t.es[1])), AsFloat(LitValue(t.es[2]))>>)
     [] t.k = "List" -> XC("list", [i \in DOMAIN t.es |-> LitValue(t.es[i])])
     [] t.k = "Tuple" -> XC("tuple", [i \in DOMAIN t.es |-> LitValue(t.es[i])])
